@@ -141,7 +141,7 @@ PROPS["C12"] = {
     "level_text": "random histories of connect / disconnect / emit / destroy / re-create over 3 emitters x 2 signals and 4 listeners x 2 slots per signal, where every slot invocation executes the next entry of a generated reaction script (connect, disconnect incl. itself, nested and recursive emit up to depth 3, delete a listener incl. the running one, delete an emitter incl. the emitting one); a model of connection records predicts the exact invocation sequence; probe emissions and a generated teardown order follow, under ASan and the allocation ledger",
     "level_note": "trusted: the connection-record model in harness/c12_callback.cpp, the live-listener registry (a call on a destroyed listener is reported from the pointer value alone), ASan; two identical live connections are never created (the statement does not say which one a disconnect removes)",
     "technique": "stateful property-based testing with a reaction script executed inside callbacks and an exact invocation-sequence model",
-    "rule": "opfuzz: 3..size top-level ops and 0..size reactions per case, concentrated on one signal so that slot chains get long. Oracle: each invocation must be the next connected record of the innermost running emission (connected before the outermost running emission of that signal began, still connected at its turn), no call on a destroyed listener or from a destroyed emitter, no connected record left uninvoked when an emission ends, probe emissions match, teardown in generated order is clean (ASan, ledger). "
+    "rule": "opfuzz: 3..size top-level ops and 0..size reactions per case over 3 emitters x 3 signals (two of them share their signature and slot functions, so one slot can be connected to two signals of one emitter) and 4 listeners, concentrated on one signal, or on the two sharing signals, so that slot chains get long. Oracle: each invocation must be the next connected record of the innermost running emission (connected before the outermost running emission of that signal began, still connected at its turn), no call on a destroyed listener or from a destroyed emitter, no connected record left uninvoked when an emission ends, probe emissions match, teardown in generated order is clean (ASan, ledger). "
             "Non-trivial = (a reaction changed the connection set of the signal being emitted AND three emissions were nested) OR an emitter/listener was destroyed inside a slot; distinct by case text hash.",
     "assumptions": ["no duplicate live connections", "an object that is both emitter and listener is not generated"],
     "parts": [opf("callback", ["harness/c12_callback.cpp"], {"cases": 1500000, "maxsize": 30}, {"cases": 3000000, "maxsize": 80, "workers": 16})],
@@ -161,7 +161,7 @@ PROPS["C15"] = {
     "level_text": "generated value trees (all listed alternatives, boundary integers, strings rich in quotes, backslashes, control characters, UTF-8 of 2-4 bytes, depth up to 1000) are serialised and parsed back; the same trees are written as documents with comments and escapes and checked against a reference comment stripper; every truncation (short texts) and sampled byte flips are parsed for totality and error position; a coverage-guided libFuzzer target with the same oracles runs on arbitrary NUL-free bytes held in exactly sized heap blocks under ASan/UBSan",
     "level_note": "trusted: reference stripper and error-position rule in harness/json_common.hpp, the value-tree model in harness/c15_json.cpp, ASan/UBSan, libFuzzer; doubles are excluded from the round trip (their %f text is lossy and the statement excludes them); strings are NUL-free",
     "technique": "property-based round-trip and differential testing (reference comment stripper) on generated trees plus coverage-guided fuzzing with in-target oracle",
-    "rule": "opfuzz 'tree': flat op lists (push-list, push-map, scalar, string, pop) build a tree; oracle: parse(toString(t)) equals t structurally and under Variant==; decorated document: stripComments == reference and parses to t; all truncations of texts <=200 bytes (24 sampled beyond) and 12 byte flips: no crash, error line/column inside the text. Non-trivial = (tree contains a string needing escapes or non-ASCII bytes AND depth >=2) OR a decorated document with a comment and a string escape. "
+    "rule": "opfuzz 'tree': flat op lists (push-list, push-map, scalar, string, pop) build a tree; oracle: parse(toString(t)) equals t structurally and under Variant== (two of three parses of a case go through one reused Json::Parser object); decorated document: stripComments == reference and parses to t; all truncations of texts <=200 bytes (24 sampled beyond) and 12 byte flips: no crash, error line/column inside the text. Non-trivial = (tree contains a string needing escapes or non-ASCII bytes AND depth >=2) OR a decorated document with a comment and a string escape. "
             "libFuzzer 'fuzz': first byte selects parse or stripComments mode; non-trivial = parsed input with escape-worthy/non-ASCII string at depth >=2 that round-trips, or a well-formed comment-stripping input containing both a comment and a string; distinct by input hash.",
     "assumptions": ["nesting depth <= 1000", "NUL-free input and strings", "lines are separated by CR LF, CR or LF"],
     "parts": [opf("tree", ["harness/c15_json.cpp"], {"cases": 60000, "maxsize": 40}, {"cases": 600000, "maxsize": 120, "workers": 16}, deps=["harness/json_common.hpp"]),
@@ -201,7 +201,7 @@ PROPS["C18"] = {
     "level_text": "all 1,114,112 code points through Unicode::toString / fromString / length / isValid against Python's UTF-8 codec; all byte strings up to length 2 (thorough: 3, 16.8 million) through the decoders on exactly sized heap blocks under ASan with a strict reference decoder; boundary and random integers through from*/to* judged by Python int(); fromHex against bytes.hex(); fromBase64 on the RFC 4648 encodings of all byte strings of length <=2 and random ones up to 300 bytes, and on 2.56 million other 4-byte strings plus random longer ones (bytes >=0x80, padding in odd places) under ASan + UBSan bounds; a libFuzzer target covers longer inputs",
     "level_note": "trusted: CPython's UTF-8 codec (surrogatepass: the library encodes surrogate code points as generalised UTF-8, which is taken as agreeing), int(), base64; the strict reference decoder in harness/c18_codec.cpp; ASan/UBSan",
     "technique": "exhaustive enumeration of small sub-spaces and sampling with differential oracles (Python codecs/int/base64) under ASan/UBSan",
-    "rule": "harness/c18_codec.cpp enumerates, oracle c18.py judges. Non-trivial = multi-byte code points, byte strings with a multi-byte lead byte (incl. truncated tails), integers of >=10 digits, padded base64 encodings, base64 inputs with bytes >=0x80; counted per record.",
+    "rule": "harness/c18_codec.cpp enumerates, oracle c18.py judges (decoder inputs in exactly sized blocks, the empty range at the very end of a block; every number also converted through a String attached to an exactly sized, unterminated block in which a digit follows). Non-trivial = multi-byte code points, byte strings with a multi-byte lead byte (incl. truncated tails), integers of >=10 digits, padded base64 encodings, base64 inputs with bytes >=0x80; counted per record.",
     "assumptions": ["surrogate code points encode as generalised UTF-8", "over-long UTF-8 forms are not rejected by isValid (the statement does not ask for it)"],
     "parts": [{"name": "codec", "kind": "custom", "module": "c18", "tiers": {"quick": {}, "thorough": {}}},
               lfz("fuzz", ["harness/c18_fuzz.cpp"], {"runs": 200000, "workers": 4, "time": 60}, {"runs": 3000000, "workers": 16, "time": 600}, max_len=256)],
@@ -258,7 +258,7 @@ PROPS["C13"] = {
     "level_text": "three paired Server clients per case; the harness owns send() on the server-side descriptors (--wrap=send) and applies a generated fault script (would-block, partial counts incl. 1-byte partials, full; adversarial shapes) on top of whatever the kernel does with a small send buffer, owns the clock and epoll_wait, and runs generated actions (writes of 1..5000 pattern bytes, suspend, resume, peer reads and writes, queries) from a 1 ms driver timer inside Server::run() and between runs; the peer verifies the byte stream position by position",
     "level_note": "trusted: the send / epoll_wait / clock_gettime wrappers in harness/srv_common.hpp, the pattern generator, the kernel's socketpair; the fault sequence is the generated dimension, the reported backlog is compared with (accepted bytes - bytes the kernel took) computed from the intercepted send log",
     "technique": "stateful property-based testing with injected send faults (fault sequence = generated input) and a byte-stream oracle at the peer",
-    "rule": "case = optional small kernel send buffer, a fault script of 0..2*size entries (shapes: mixture, would-block phase then full, 1-byte partials, alternating, large partials), 3..size actions. Oracle: bytes handed to the kernel are a prefix of the accepted stream and the peer finally receives exactly the accepted bytes in order; 'postponed' and getSendBufferSize() equal accepted minus handed; onWrite exactly once per drain and never with backlog; no onRead between suspend() and resume(); ASan. "
+    "rule": "case = optional small kernel send buffer, a fault script of 0..2*size entries (shapes: mixture, would-block phase then full, 1-byte partials, alternating, large partials), 3..size actions (write, suspend, resume, peer reads/writes, queries, leaving run(), and arming the next onWrite / onRead callback of a client to perform a write itself). Oracle: bytes handed to the kernel are a prefix of the accepted stream and the peer finally receives exactly the accepted bytes in order; 'postponed' and getSendBufferSize() equal accepted minus handed; onWrite exactly once per drain and never with backlog; no onRead between suspend() and resume(); ASan. "
             "Non-trivial = a partial send or would-block left a backlog, a further write happened while the backlog was non-empty, and the backlog drained (onWrite); distinct by case text hash.",
     "assumptions": ["Client::write gets size >= 1", "the peer of a pair()ed client is a local stream socket"],
     "parts": [opf("server", ["harness/c13_server.cpp"], {"cases": 250000, "maxsize": 40}, {"cases": 300000, "maxsize": 80, "workers": 16}, ldflags=SRV_WRAPS, deps=["harness/srv_common.hpp"])],
@@ -271,7 +271,7 @@ PROPS["C14"] = {
     "level_text": "(loop) generated histories of creating and removing timers (intervals 1..50 ms, bursts created in the same virtual millisecond so that three and more due times coincide), paired clients, loopback listeners with incoming connections, establishers to a live listener and to a closed port, peer writes / closes, suspend / resume, client writes and interrupt(), executed between runs and - through a reaction script - from inside every kind of callback, including removal of the object whose callback is running and of objects with a pending event; the harness owns the clock and epoll_wait (virtual time, generated order and subsets of ready descriptors); (interrupt) a second part runs run() and interrupt() on two logical threads under the deterministic scheduler",
     "level_note": "trusted: the wrappers in harness/srv_common.hpp (virtual clock, epoll_wait with time-out 0 and idle hook), the timer / registration model in harness/c14_loop.cpp, the kernel's loopback sockets; 'eventually dispatched' is checked as 'before the loop goes idle' for socket-pair clients; accepted TCP connections are only checked for accept / removal behaviour",
     "technique": "stateful property-based testing with a reaction script executed inside callbacks, virtual time and generated readiness order; randomised deterministic scheduling for the interrupt race",
-    "rule": "loop: 3..size top-level ops (incl. 'run' for a generated virtual duration ended by a watchdog interrupt), 0..size reactions, 0..11 readiness permutations. Oracle: activation k of a timer at virtual time >= start + k*interval, at most once per k, activations in non-decreasing due order, no timer due when the loop goes idle and no sleep beyond a due time; no callback of any kind after remove() returned; onRead only when not suspended, a readable or peer-closed pair client is dispatched before the loop goes idle, a failed read/write is followed by onClosed, onClosed only after a failure, establishers notified exactly once with the right kind; run() returns only after interrupt() and within 300 poll rounds of it. "
+    "rule": "loop: 3..size top-level ops (incl. 'run' for a generated virtual duration ended by a watchdog interrupt), 0..size reactions, 0..11 readiness permutations; one timer in eight has a handler that takes as long as its interval (it moves the virtual clock). Oracle: activation k of a timer at virtual time >= start + k*interval, at most once per k, activations in non-decreasing due order, no timer due when the loop goes idle and no sleep beyond a due time (both only for passes without a slow handler); no callback of any kind after remove() returned; onRead only when not suspended, a readable or peer-closed pair client is dispatched before the loop goes idle, a failed read/write is followed by onClosed, onClosed only after a failure, establishers notified exactly once with the right kind; run() returns only after interrupt(), within 300 poll rounds and 100000 callbacks of it. "
             "Non-trivial = (>=3 coinciding due times AND a removal among them) OR a removal of an object with a pending event OR a timer removing itself from its callback together with other actions inside callbacks; interrupt part: case = 1-3 runs, delays before each run and each interrupt, duplicate interrupts, optional timer; 10 schedules per case; oracle: every run() returns after its interrupt, less than 290 s of virtual time later (not by the default time-out), no deadlock; non-trivial = a schedule with >=4 context switches (interrupt while the loop polls) or an interrupt issued before run() started; distinct by case text hash.",
     "assumptions": ["Server::time gets interval >= 1", "Server objects are used from the loop thread; only interrupt() is called from another thread"],
     "parts": [opf("loop", ["harness/c14_loop.cpp"], {"cases": 150000, "maxsize": 40}, {"cases": 1500000, "maxsize": 80, "workers": 16}, ldflags=SRV_WRAPS, deps=["harness/srv_common.hpp"]),
